@@ -879,7 +879,9 @@ class FnWeaver:
             pos = b + 1
             if a >= body_a and b <= body_b and rx.search(ln):
                 hits.append((a, b))
-        if len(hits) < nth:
+        if nth == 0:
+            nth = len(hits)          # `last`: the last matching line (e.g. the final `return;` of a loop body, however many early exits precede it)
+        if len(hits) < nth or nth < 1:
             self.lost.append('%s /%s/ #%d in %s' % (where, regex, nth, self.qual))
             return
         a, b = hits[nth - 1]
@@ -1200,6 +1202,8 @@ def weave(unit_path):
                 info['rules'].add('D6')
             if d != 'stub':
                 info.setdefault('fn_texts', []).append((rel, text))
+                if d == 'fn' and tname:
+                    info.setdefault('fn_types', []).append((rel, tname, text))
             fw = FnWeaver(text, rel, first_line, qual, trel)
             if not opts.get('trait'):
                 fw.publicise()
@@ -1309,9 +1313,11 @@ def weave(unit_path):
                         raise WeaveError('%s:%d: bad anchor' % (trel, i + 1))
                     fw.add_tail_hint(mm2.group(1), int(mm2.group(2) or 1), blk, blk_line)
                 elif sd in ('after', 'before', 'afteropt', 'beforeopt'):
-                    mm2 = re.match(r'/(.*)/\s*(\d+)?$', sarg)
+                    mm2 = re.match(r'/(.*)/\s*(\d+|last)?$', sarg)
                     if not mm2:
                         raise WeaveError('%s:%d: bad anchor' % (trel, i + 1))
+                    if mm2.group(2) == 'last':
+                        mm2 = re.match(r'/(.*)/\s*(\d+)?$', '/%s/ 0' % mm2.group(1))
                     if sd.endswith('opt'):
                         # hint that serves only the path through the anchored statement (e.g. an early `return`): if that statement is gone,
                         # so is the path, and the hint is not needed -- not counted as a lost anchor
@@ -1371,6 +1377,51 @@ def weave(unit_path):
                 for off, ln in enumerate(ctext.split('\n')):
                     ins_lines.append(ln)
                     ins_origin.append(dict(kind='repo', file=rel_f, line=cline + off, fn=None))
+            out.lines[k:k] = ins_lines
+            out.origin[k:k] = ins_origin
+    # D26: a method of the same type (same source file, non-generic impl) that an extracted function calls as `self.NAME(` and that the unit
+    # declares nowhere is declared automatically by its real signature, `external_body`, with NO contract: nothing is known about what it
+    # returns (or, through `&mut self`, changes).  A change that starts to call such a method is then judged by the caller's contract
+    # (seed C11b: an early `return` guarded by `self.connected_clients() <= 1`) instead of stopping at "no method named ...".
+    text0 = out.finish()
+    auto_m = []
+    seen_m = set()
+    for (rel_f, tname_f, body_f) in info.get('fn_types', []):
+        for nm in sorted(set(re.findall(r'\bself\s*\.\s*([a-z_][a-z0-9_]*)\s*\(', body_f))):
+            if (tname_f, nm) in seen_m or re.search(r'\bfn\s+%s\b' % re.escape(nm), text0):
+                continue
+            seen_m.add((tname_f, nm))
+            try:
+                mtext, mline = locate_fn(rel_f, tname_f, nm, None)
+            except Exception:
+                continue
+            try:
+                fwm = FnWeaver(mtext, rel_f, mline, '%s::%s' % (tname_f, nm), trel)
+                fwm.publicise()
+                fwm.stub_body()
+                fwm.rename_underscore_params()
+                o2 = Out()
+                fwm.render(o2, ['#[verifier::external_body]'])
+                o2.finish()
+            except Exception:
+                continue
+            auto_m.append((tname_f, o2))
+            info['hashes']['fn %s %s::%s' % (rel_f, tname_f, nm)] = hashlib.sha256(mtext.encode()).hexdigest()
+            info['stubs'].append(dict(qual='%s::%s' % (tname_f, nm), file=rel_f, line=mline, specfiles=[], has_spec=False, auto=True))
+            info['rules'].add('D26')
+    if auto_m:
+        k = len(out.lines) - 1
+        while k >= 0 and not out.lines[k].startswith('} // verus!'):
+            k -= 1
+        if k >= 0:
+            ins_lines, ins_origin = [], []
+            for (tname_f, o2) in auto_m:
+                ins_lines.append('impl %s {' % tname_f)
+                ins_origin.append(dict(kind='tmpl', file=trel, line=0, fn=None))
+                ins_lines += o2.lines
+                ins_origin += o2.origin
+                ins_lines.append('}')
+                ins_origin.append(dict(kind='tmpl', file=trel, line=0, fn=None))
             out.lines[k:k] = ins_lines
             out.origin[k:k] = ins_origin
     text = out.finish()
